@@ -4,20 +4,12 @@
    and crates/matcher/src/lib.rs Captures::interpolate (haystack slices as group texts).
    Definitions only. *)
 From RG Require Import Base.Bytes Model.Interpolate Model.MatchIter.
+From RG Require Export Base.LineTerm.
 
 (* a Captures value: group i -> span; group 0 always present for a successful match *)
 Definition caps := list (option (nat * nat)).
 Definition cap_span (c : caps) : nat * nat :=
   match c with Some m :: _ => m | _ => (0, 0) end.
-
-Inductive lineterm := LTByte (b : byte) | LTCrlf.
-Definition lt_bytes (lt : lineterm) : bytes :=
-  match lt with LTByte b => [b] | LTCrlf => [13; 10]%N end.
-(* LineTerminator::as_byte: the last byte *)
-Definition lt_byte (lt : lineterm) : byte := match lt with LTByte b => b | LTCrlf => 10%N end.
-(* LineTerminator::is_suffix — `slice.last() == Some(as_byte())` *)
-Definition lt_is_suffix (lt : lineterm) (s : bytes) : bool :=
-  match rev s with b :: _ => (b =? lt_byte lt)%N | [] => false end.
 
 (* trim_line_terminator(searcher, buf, &mut line): returns the new end of `line` = [st, en) *)
 Definition trim_line_terminator (lt : lineterm) (buf : bytes) (st en : nat) : nat :=
